@@ -16,6 +16,9 @@ type KeyDef struct {
 	Code uint16 `json:"code"`
 	Note int    `json:"note"`
 	Off  int    `json:"off"`
+	// verbatim overrides (invalidation generator): key name and the whole value text
+	RawName  string  `json:"raw_name,omitempty"`
+	RawValue *string `json:"raw_value,omitempty"`
 }
 
 type AxisDef struct {
@@ -35,6 +38,9 @@ type AxisDef struct {
 	Deadzone  *float64 `json:"deadzone,omitempty"` // entry in the sub-handler's deadzones table
 	Min       int32    `json:"min"`                // evdev AbsInfo of the axis (engine only)
 	Max       int32    `json:"max"`
+	RawName   string   `json:"raw_name,omitempty"`    // verbatim axis name
+	RawDZName string   `json:"raw_dz_name,omitempty"` // verbatim name in the deadzones table
+	Extra     string   `json:"extra,omitempty"`       // verbatim extra inline field, e.g. `bogus = 1`
 }
 
 type AnalogSub struct {
@@ -51,8 +57,9 @@ type MappingDef struct {
 }
 
 type ActionDef struct {
-	Code   uint16 `json:"code"`
-	Action string `json:"action"`
+	Code    uint16 `json:"code"`
+	Action  string `json:"action"`
+	RawName string `json:"raw_name,omitempty"`
 }
 
 type Desc struct {
@@ -68,6 +75,10 @@ type Desc struct {
 	Actions    []ActionDef  `json:"actions"`
 	Colors     [7]int       `json:"colors"` // white black c unavailable other active active_external
 	Mappings   []MappingDef `json:"mappings"`
+	ExitRaw    []string     `json:"exit_raw,omitempty"` // verbatim exit sequence names (overrides Exit)
+	// Inject: verbatim lines added at an anchor: "top", "identifier", "defaults", "action_mapping", "open_rgb",
+	// "mapping:<i>", "keys:<i>:<sub>", "analog:<i>:<sub>"
+	Inject map[string]string `json:"inject,omitempty"`
 }
 
 func (m *MappingDef) hasKeySub(s string) bool {
@@ -218,13 +229,29 @@ func RenderTOML(d *Desc, sp *Spelling) string {
 	}
 	fmt.Fprintf(&b, "collision_mode = %s\n", tomlString(d.Mode))
 	b.WriteString("exit_sequence = [")
-	for i, c := range d.Exit {
-		if i > 0 {
-			b.WriteString(", ")
+	if d.ExitRaw != nil {
+		for i, n := range d.ExitRaw {
+			if i > 0 {
+				b.WriteString(", ")
+			}
+			b.WriteString(tomlString(n))
 		}
-		b.WriteString(tomlString(sp.keyName(c, keyCodeName)))
+	} else {
+		for i, c := range d.Exit {
+			if i > 0 {
+				b.WriteString(", ")
+			}
+			b.WriteString(tomlString(sp.keyName(c, keyCodeName)))
+		}
 	}
 	b.WriteString("]\n")
+	inject := func(anchor string) {
+		if l, ok := d.Inject[anchor]; ok {
+			b.WriteString(l)
+			b.WriteString("\n")
+		}
+	}
+	inject("top")
 	nl()
 	sections := []func(){
 		func() {
@@ -234,6 +261,7 @@ func RenderTOML(d *Desc, sp *Spelling) string {
 			if d.Uniq != "" || sp.pick("uniq-present", 2) == 1 {
 				fmt.Fprintf(&b, "  uniq = %s\n", tomlString(d.Uniq))
 			}
+			inject("identifier")
 		},
 		func() {
 			b.WriteString("[defaults]\n")
@@ -248,12 +276,18 @@ func RenderTOML(d *Desc, sp *Spelling) string {
 			for i := range lines {
 				b.WriteString(lines[(i+rot)%len(lines)])
 			}
+			inject("defaults")
 		},
 		func() {
 			b.WriteString("[action_mapping]\n")
 			for _, a := range d.Actions {
-				fmt.Fprintf(&b, "  %s = %s\n", sp.keyName(a.Code, keyCodeName), tomlString(a.Action))
+				name := sp.keyName(a.Code, keyCodeName)
+				if a.RawName != "" {
+					name = a.RawName
+				}
+				fmt.Fprintf(&b, "  %s = %s\n", name, tomlString(a.Action))
 			}
+			inject("action_mapping")
 		},
 		func() {
 			b.WriteString("[open_rgb]\n")
@@ -261,6 +295,7 @@ func RenderTOML(d *Desc, sp *Spelling) string {
 			for i, n := range names {
 				fmt.Fprintf(&b, "  %s = %s\n", n, sp.intLit(d.Colors[i]))
 			}
+			inject("open_rgb")
 		},
 	}
 	rot := sp.pick("section-order", len(sections))
@@ -272,9 +307,11 @@ func RenderTOML(d *Desc, sp *Spelling) string {
 		m := &d.Mappings[mi]
 		b.WriteString("[[mapping]]\n")
 		fmt.Fprintf(&b, "  name = %s\n", tomlString(m.Name))
+		inject(fmt.Sprintf("mapping:%d", mi))
 		for _, sub := range m.KeySubs {
 			b.WriteString("  [[mapping.keys]]\n")
 			fmt.Fprintf(&b, "    subhandler = %s\n", tomlString(sub))
+			inject(fmt.Sprintf("keys:%d:%s", mi, sub))
 			b.WriteString("    [mapping.keys.map]\n")
 			for _, k := range m.Keys {
 				if k.Sub != sub {
@@ -284,7 +321,14 @@ func RenderTOML(d *Desc, sp *Spelling) string {
 				if k.Off != 0 || sp.pick("explicit-zero-offset", 3) == 1 {
 					val += "," + strconv.Itoa(k.Off)
 				}
-				fmt.Fprintf(&b, "      %s = %s\n", sp.keyName(k.Code, keyCodeName), tomlString(val))
+				name := sp.keyName(k.Code, keyCodeName)
+				if k.RawName != "" {
+					name = k.RawName
+				}
+				if k.RawValue != nil {
+					val = *k.RawValue
+				}
+				fmt.Fprintf(&b, "      %s = %s\n", name, tomlString(val))
 			}
 			nl()
 		}
@@ -294,6 +338,7 @@ func RenderTOML(d *Desc, sp *Spelling) string {
 			if as.Default != nil {
 				fmt.Fprintf(&b, "    default_deadzone = %s\n", floatLit(*as.Default))
 			}
+			inject(fmt.Sprintf("analog:%d:%s", mi, as.Sub))
 			subTables := sp.pick("axis-subtables", 3) == 2
 			var later []string
 			if !subTables {
@@ -310,6 +355,9 @@ func RenderTOML(d *Desc, sp *Spelling) string {
 				}
 				fields := axisFields(a, sp)
 				name := sp.keyName(a.Code, absCodeName)
+				if a.RawName != "" {
+					name = a.RawName
+				}
 				if subTables {
 					var sb strings.Builder
 					fmt.Fprintf(&sb, "    [mapping.analog.map.%s]\n", name)
@@ -329,7 +377,11 @@ func RenderTOML(d *Desc, sp *Spelling) string {
 				for ai := range m.Axes {
 					a := &m.Axes[ai]
 					if a.Sub == as.Sub && a.Deadzone != nil {
-						fmt.Fprintf(&b, "      %s = %s\n", sp.keyName(a.Code, absCodeName), floatLit(*a.Deadzone))
+						name := sp.keyName(a.Code, absCodeName)
+						if a.RawDZName != "" {
+							name = a.RawDZName
+						}
+						fmt.Fprintf(&b, "      %s = %s\n", name, floatLit(*a.Deadzone))
 					}
 				}
 			}
@@ -370,6 +422,9 @@ func axisFields(a *AxisDef, sp *Spelling) []string {
 	}
 	if a.Center != nil {
 		fields = append(fields, "deadzone_at_center = "+boolLit(*a.Center))
+	}
+	if a.Extra != "" {
+		fields = append(fields, a.Extra)
 	}
 	// rotate everything after "type" for variety
 	if n := len(fields) - 1; n > 1 {
